@@ -57,6 +57,21 @@ type C10Case struct {
 	Routes []RouteSpec   `json:"routes"`
 	Shared []SharedMatch `json:"shared,omitempty"`
 	Reqs   []FReq        `json:"reqs"`
+	// Vars: 1 = the file has a vars block nobody references, 2 = the pull paths are written through a
+	// variable ({vars.PB}/rN). Neither changes what the file means.
+	Vars int `json:"vars,omitempty"`
+}
+
+// c10Src is the configuration text of the case.
+func (c C10Case) src() string {
+	src := c10Text(c.Routes, c.Shared...)
+	switch c.Vars {
+	case 1:
+		src = "vars {\n  UNUSED \"u\"\n}\n" + src
+	case 2:
+		src = "vars {\n  PB /pull\n}\n" + strings.ReplaceAll(src, "path /pull/", "path {vars.PB}/")
+	}
+	return src
 }
 
 // effective returns the routes with the criteria of their referenced shared matcher folded in:
@@ -611,6 +626,7 @@ func genC10Case() *rapid.Generator[C10Case] {
 		routes := c.effective()
 		reqGen := rapid.Custom(func(t *rapid.T) FReq { return genC10Req(t, routes) })
 		c.Reqs = rapid.SliceOfN(reqGen, 1, 8).Draw(t, "reqs")
+		c.Vars = rapid.SampledFrom([]int{0, 0, 0, 1, 2}).Draw(t, "vars")
 		return c
 	})
 }
@@ -636,7 +652,7 @@ func (o *fOutcome) labels() []string {
 
 func runC10(c C10Case, tolerate bool) *fOutcome {
 	out := newFOutcome()
-	src := c10Text(c.Routes, c.Shared...)
+	src := c.src()
 	eff := c.effective()
 	w, err := newFrontWorld(src, worldOpts{})
 	if err != nil {
